@@ -23,7 +23,7 @@ pub fn meta() -> Meta {
             "rows are independent in every operation and every output is compared up to row order, so sorted states have the same futures (guarded by the CLI path replays)".into(),
             "weed --min-freq uses only frequencies t/n whose product with n is exact (floor/ceil ambiguity is outside the alphabet)".into(),
         ],
-        exhaustive_when_uncapped: false,
+        exhaustive_when_uncapped: true, // the declared bounded space (all selections / the whole lattice / all histories up to the depth bound / all interleavings and configurations) is enumerated completely unless capped
     }
 }
 
